@@ -121,6 +121,14 @@ def run(report):
 
     def process_contract(ex, ctx, args, kw):
         c_, l_, s_ = args
+
+        def as_str(x, what):
+            # callee precondition (annotation `str`): the names handed over are strings, never None
+            if isinstance(x, Opt):
+                ex.oblige(f"{UNIT}/{ex.current_fn}/callee-pre:_process_subscript_and_names-{what}-is-a-string(not-None)", ctx, z3.Not(x.is_none))
+                return x.val
+            return x
+        c_, l_ = as_str(c_, "code_name"), as_str(l_, "latex_name")
         has = z3.And(z3.Not(s_.is_none), z3.Length(s_.val) > 0) if isinstance(s_, Opt) else z3.BoolVal(False)
         cc = ctx.fork()
         cc.ghost["process_args"] = (c_, l_, s_)
